@@ -253,7 +253,7 @@ pub fn parse_unit(text: &str) -> Unit {
                 let mut p = ProofSpec { mode: mode.clone(), text: block.clone(), ..Default::default() };
                 match mode.as_str() {
                     "start" | "end" | "tail" | "rawstart" => {}
-                    "loopstart" | "loopend" | "rawloopstart" => p.anchor = words.get(1).cloned().unwrap_or_default(),
+                    "loopstart" | "loopend" | "rawloopstart" | "loopafter" => p.anchor = words.get(1).cloned().unwrap_or_default(),
                     "before" | "after" | "wrap" | "rawbefore" => {
                         let after_mode = rest[mode.len()..].to_string();
                         let (q, rem) = parse_quoted(&after_mode);
